@@ -15,7 +15,7 @@ ASSUMPTIONS = ["'influences' is established by perturbing the coordinate (up to 
 def run(ctx):
     rng = ctx.rng
     ss = S.generate(ctx, 14 if ctx.quick else 100, 2 if ctx.quick else 4, max_e=6, max_loops=4, routings_per_graph=1, kinds=("uniform",),
-                    special=("disconnected", "vacuum") * (2 if ctx.quick else 6))
+                    special=("disconnected", "vacuum") * (2 if ctx.quick else 6) + ("single_edge",) * (2 if ctx.quick else 4))
     for k, s in enumerate(ss):
         n0 = len(s["case"]["edges"])
         if k % 4 == 1 and n0 >= 2:
